@@ -201,6 +201,18 @@ CHECKS["C15"] = {
     "technique": "solver-enumerated operand/whitespace vectors through the real parser (object identity) + z3 regex inclusion for re-spacing",
 }
 
+CHECKS["C10"] = {
+    "category": "model_checking",
+    "text": "A skeleton function filled by a symbolic choice vector (each slot one of 26 binding/reading forms x a name; probed "
+            "identifier among the names and a fresh one) is generated, compiled and passed to the real probing('f > v').__enter__(); "
+            "oracle is Python's own symtable of the same source: activation must succeed iff v is a parameter / local / free / "
+            "global-read name of f with matching provenance, fresh names must raise SelectorError, non-functions TypeError.",
+    "design_ref": "DESIGN.md section 4, C10",
+    "note": "Bounded choice exploration (the solver enumerates the finite vector; activation runs natively). Names that occur only "
+            "in nested scopes are not asserted; `global N` + assignment accepts provenance body or external.",
+    "technique": "solver-enumerated program-shape vectors through the real activation path, oracle = Python symtable",
+}
+
 NOT_YET = {}
 
 
